@@ -90,6 +90,11 @@ def rand_stream(rng, npk, big=False):
         layer = rng.randrange(7)
         stave = rng.randrange(48)
         ids.append((rng.randrange(0, 24) if rng.random() < 0.8 else rng.randrange(256), (layer << 12) | (rng.randrange(4) << 8) | stave))
+    if nlinks >= 2 and rng.random() < 0.35:
+        # two staves of one outer layer whose numbers differ by 32 (both legal): they must not be confused by a stave filter
+        layer, st = rng.choice([5, 6]), rng.randrange(16)
+        ids[0] = (ids[0][0], (layer << 12) | st)
+        ids[1] = (ids[1][0], (layer << 12) | (st + 32))
     pkts = []
     for k in range(npk):
         link, fee = rng.choice(ids)
